@@ -70,6 +70,11 @@ class SearchableObjectHolder {
     {
         std::lock_guard<std::mutex> lock(mapLock);
         auto res = objectMap.emplace(name, std::move(obj));
+        if (res.second) {
+            // tags left behind for this name by addType on an absent object
+            // do not belong to the new object
+            typeMap.erase(name);
+        }
         return res.second;
     }
 
@@ -79,7 +84,7 @@ class SearchableObjectHolder {
         std::lock_guard<std::mutex> lock(mapLock);
         auto res = objectMap.emplace(name, std::move(obj));
         if (res.second) {
-            typeMap.emplace(name, std::vector<Y>{type});
+            typeMap[name] = std::vector<Y>{type};
         }
         return res.second;
     }
@@ -157,7 +162,9 @@ object otherwise the results are not totally reliable upon return
             if (ret.second) {
                 auto fnd2 = typeMap.find(fnd->first);
                 if (fnd2 != typeMap.end()) {
-                    typeMap.emplace(copyToName, fnd2->second);
+                    typeMap[copyToName] = fnd2->second;
+                } else {
+                    typeMap.erase(copyToName);
                 }
             }
 
